@@ -236,6 +236,7 @@ pub fn random_spec(rng: &mut Rng, p: &Profile) -> CaseSpec {
             let mut s = if large { SZ_LARGE } else if medium { SZ_MEDIUM } else if p.small && rng.chance(1, 2) { SZ_SMALL } else { SZ_TINY };
             if p.long_arcs_only { s |= F_IRRELEVANCE; }
             else if !p.only_all_impacted && rng.chance(1, 5) { s |= F_IRRELEVANCE; }
+            if s & F_IRRELEVANCE != 0 && rng.chance(2, 3) { s |= F_CONSERVATIVE; }
             else if rng.chance(if p.depth_free_bias { 3 } else { 1 }, 4) { s |= F_DEPTH_FREE; }
             if rng.chance(1, 3) { s |= F_PERMUTED; }
             if p.reconvergent || rng.chance(1, 4) { s |= F_RECONVERGENT; }
